@@ -6,16 +6,48 @@ use std::io::Write;
 use rustyline::error::ReadlineError;
 use rustyline::Editor;
 
+// Parentheses inside strings, character literals, |quoted identifiers| and
+// comments do not open or close a list.
+enum BracketScan {
+    Code,
+    Comment,
+    Str,
+    StrEscape,
+    Hash,
+    HashBackslash,
+    Bar,
+}
+
 fn check_bracket_closed(chars: impl Iterator<Item = char>) -> bool {
+    use BracketScan::*;
     let mut count = 0;
-    let mut in_comment = false;
+    let mut state = Code;
     for c in chars {
-        match (c, in_comment) {
-            ('(', false) => count += 1,
-            (')', false) => count -= 1,
-            (';', false) => in_comment = true,
-            ('\n', true) => in_comment = false,
-            _ => (),
+        state = match (state, c) {
+            (Code, '(') | (Hash, '(') => {
+                count += 1;
+                Code
+            }
+            (Code, ')') => {
+                count -= 1;
+                Code
+            }
+            (Code, ';') => Comment,
+            (Code, '"') => Str,
+            (Code, '|') => Bar,
+            (Code, '#') => Hash,
+            (Code, _) => Code,
+            (Comment, '\n') | (Comment, '\r') => Code,
+            (Comment, _) => Comment,
+            (Str, '"') => Code,
+            (Str, '\\') => StrEscape,
+            (Str, _) => Str,
+            (StrEscape, _) => Str,
+            (Bar, '|') => Code,
+            (Bar, _) => Bar,
+            (Hash, '\\') => HashBackslash,
+            (Hash, _) => Code,
+            (HashBackslash, _) => Code,
         }
     }
     count <= 0
